@@ -49,3 +49,13 @@ PROPS["C11"] = dict(
     trusted_base=[A_TOOLS, A_ADDR],
     assumptions=["alignments are the enumerated set {1,2,4,8,16,32,64,4096}; words/tags/timestamps range over all of usize per alignment", A_ADDR],
 )
+
+_RG = ["rg_rely_reflexive_transitive", "rg_safety_lemmas", "rg_alloc", "rg_increment_strong_owner", "rg_increment_strong_protected",
+       "rg_increment_strong_unguarded", "rg_is_not_destructed", "rg_decrement_strong_noguard", "rg_decrement_strong_guard", "rg_try_destruct",
+       "rg_increment_weak_owner", "rg_increment_weak_protected", "rg_decrement_weak_noguard", "rg_decrement_weak_guard", "rg_try_dealloc", "rg_dealloc_frees"]
+PROPS["RG"] = dict(   # development aid: all L1 R/G contracts at once (not a property)
+    title="(dev) all count-word R/G contracts", level="proof", modules=["utils_rg_h.rs", "internal_h.rs"], contract_groups=[],
+    kani=dict(quick=["utils_rg_h.rs::" + h for h in _RG]),
+    stubbed_harnesses=(), trusted_base=[A_TOOLS, A_SC, A_RG, A_EBR, A_RANGE],
+    kani_flags=["--no-assertion-reach-checks"],
+)
